@@ -413,6 +413,9 @@ def run(prog, rep):
               witness="len(RDFReader(path, 'turtle').to_odml()) == 2 for a file holding one document")
 
     from ..report import import_verdicts
+    import_verdicts(prog, rep, "C05", ("RET-1",), "RET-1",
+                    "the importer hands every value (a native int, float, date ... as rdflib delivers it) to the Property constructor, which re-types "
+                    "it with the dtype converters: they must return what they are given in normal form, exactly")
     import_verdicts(prog, rep, "C01", ("ENUM-1",), "ENUM-1",
                     "the exporter writes the dtype as Literal(prop.dtype), i.e. through str(): a DType member has to print as its name, or the graph "
                     "carries `DType.url` and the import drops the dtype")
